@@ -2,6 +2,7 @@ import ProbLogModel.Sem
 import ProbLogProofs.Lemmas.SemWorlds
 import ProbLogProofs.Lemmas.SemRun
 import ProbLogProofs.Properties.C26
+import ProbLogProofs.Properties.C01Sem
 import Mathlib.Algebra.Order.Ring.Rat
 import Mathlib.Algebra.Order.BigOperators.Group.List
 import Mathlib.Algebra.Order.Field.Basic
@@ -17,7 +18,7 @@ reference reports obey `0 ≤ P(q ∧ e) ≤ P(e) ≤ 1`, and the conditional pr
 with lies in `[0,1]`.  For all programs, query lists and evidence lists; no bounds.
 -/
 namespace ProbLogProofs.C01
-open ProbLogModel.Sem ProbLogProofs ProbLogProofs.SemWorlds ProbLogProofs.SemRun
+open ProbLogModel.Sem ProbLogProofs ProbLogProofs.SemWorlds ProbLogProofs.SemRun ProbLogProofs.SemDefinite
 
 /-- The validity condition on a group of alternatives (what C30 requires of the annotations of one fact / AD). -/
 def ValidGroup (g : Group) : Prop := (∀ pc ∈ g.alts, 0 ≤ pc.1) ∧ (g.alts.map (·.1)).sum ≤ 1
@@ -186,5 +187,37 @@ theorem C01_spec_more_evidence_less_mass (P : Prog) (roots : List Nat) (evidence
   cases v
   · rw [hf]; linarith
   · rw [ht]; exact b
+
+/-! ## Definite programs -/
+
+theorem definite_filter (rules : List Rule) (p : Rule → Bool) (h : definite rules = true) :
+    definite (rules.filter p) = true := by
+  unfold definite at *
+  rw [List.all_eq_true] at *
+  intro r hr
+  exact h r (List.mem_of_mem_filter hr)
+
+/-- **Definite programs are never rejected by the reference**: without negative body atoms no total choice has an
+    undefined relevant atom, so the hypothesis `undefWorlds = 0` of the C08/C26 independence theorems holds. -/
+theorem C01_run_definite_no_undef (P : Prog) (queries : List Nat) (evidence : List (Nat × Bool))
+    (hdef : definite P.rules = true) : (run P queries evidence).undefWorlds = 0 := by
+  rw [run_eq_sums]
+  show undefOf P _ = 0
+  unfold undefOf
+  apply List.sum_eq_zero
+  intro x hx
+  rw [List.mem_map] at hx
+  obtain ⟨w, _, rfl⟩ := hx
+  have h2 : (model P (queries ++ evidence.map (·.1)) w.chosen).1 = (model P (queries ++ evidence.map (·.1)) w.chosen).2 := by
+    unfold model
+    exact (C01_wfm_two_valued_definite _ _ _ (by simp only [restrict]; exact definite_filter _ _ hdef)).1
+  unfold undefTerm undefIn
+  rw [h2]
+  simp
+
+-- non-vacuity: `0.3::c0. a0 :- c0. a1 :- a0, a1. a1 :- a0.` is definite and has a positive cycle
+example : definite (⟨2, 1, [⟨0, [], [], some 0⟩, ⟨1, [0, 1], [], none⟩, ⟨1, [0], [], none⟩], [⟨[(3/10, 0)]⟩]⟩ : Prog).rules = true ∧
+    (run ⟨2, 1, [⟨0, [], [], some 0⟩, ⟨1, [0, 1], [], none⟩, ⟨1, [0], [], none⟩], [⟨[(3/10, 0)]⟩]⟩ [1] []).num = [3/10] := by
+  decide +kernel
 
 end ProbLogProofs.C01
